@@ -71,6 +71,13 @@ package termrenderers
 //@   requires wf_heat(s) && idx >= 0 && idx <= 1000000000 && row != nil
 //@   ensures wf_heat(s) && s.minVal == old(s.minVal) && s.rowCount == old(s.rowCount) && s.colCount == old(s.colCount)
 //@   loop 1 invariant 0 <= i && wf_heat(s) && s.minVal == old(s.minVal) && s.rowCount == old(s.rowCount) && s.colCount == old(s.colCount)
+// C14: a heatmap row has exactly one cell per displayed column, cell i shows the row's value in
+// column i (absent = 0) scaled against the current minimum and maximum
+//@   ghostset at "termunicode.HeatWrite(&sb," : hm_cells(addrof(sb)) := old(hm_cells(addrof(sb))) + 1
+//@   assert at "termunicode.HeatWrite(&sb, s.Scaler.Scale(" : hm_cells(addrof(sb)) == i + 1 && $arg1 == (if in_dom(row.cols, cols[i]) then map_get(row.cols, cols[i]) else 0) && $arg2 == s.minVal && $arg3 == s.maxVal
+//@   assert at "s.term.WriteForLine(2+idx" : hm_cells(addrof(sb)) == len(cols)
+//@   loop 1 invariant i <= len(cols) && hm_cells(addrof(sb)) == i
+//@ ghost hm_cells(strings.Builder) int
 //@ func (*Heatmap).WriteFooter
 //@   requires wf_heat(s) && idx >= 0 && idx <= 1000000000
 //@ func (*Heatmap).UpdateMinMax
@@ -84,6 +91,17 @@ package termrenderers
 //@   requires agg != nil && s.table != nil && wf_tw(s.table) && s.colCount >= 0 && s.rowCount >= 0
 //@   loop 1 invariant 0 <= i && s.table != nil && wf_tw(s.table) && rowCount <= len(rows) && (forall k in [0, len(rows)) :: rows[k] != nil)
 //@   loop 2 invariant 0 <= i && 0 <= j && s.table != nil && wf_tw(s.table) && i < rowCount && rowCount <= len(rows) && (forall k in [0, len(rows)) :: rows[k] != nil) && row != nil
+// C14: a sparkline row has exactly one cell per displayed column; cell j shows the row's value in
+// column j scaled against the table's minimum and maximum
+//@   ghostset at "termunicode.SparkWrite(&sb," : sp_cells(addrof(sb)) := old(sp_cells(addrof(sb))) + 1
+//@   ghostset at "sb.Reset()"#2 : sp_cells(addrof(sb)) := 0
+//@   ghostset at "sb.Reset()"#1 : sp_cells(addrof(sb)) := 0
+//@   assert at "termunicode.SparkWrite(&sb, s.Scaler.Scale(" : $arg2 == minVal && $arg3 == maxVal
+//@   assert at "s.table.WriteRow(i+1," : sp_cells(addrof(sb)) == len(colNames)
+//@   loop 1 invariant sp_cells(addrof(sb)) == 0
+//@   loop 2 invariant j <= len(colNames) && sp_cells(addrof(sb)) == j
+
+//@ ghost sp_cells(strings.Builder) int
 
 // ---- table writer ----
 //@ pred wf_tw(t) := t.term != nil && 0 <= t.activeRows && t.activeRows <= t.maxRows && t.maxRows <= 1000000000 && len(t.rows) == t.maxRows && len(t.colWidth) == t.maxCols
